@@ -56,6 +56,15 @@ func main() {
 		os.Exit(cmdCheck(os.Args[2:]))
 	case "replay":
 		os.Exit(cmdReplay(os.Args[2:]))
+	case "corpus":
+		// run the demonstration corpus of one property against the current tree (development aid)
+		eng := newEngine()
+		note, failing := runDemoCorpus(eng, os.Args[2])
+		fmt.Println(note)
+		if failing != "" {
+			fmt.Println("failing:", failing)
+			os.Exit(1)
+		}
 	case "selftest":
 		os.Exit(cmdSelftest(os.Args[2:]))
 	default:
